@@ -158,6 +158,18 @@ CHECKS["C09"] = dict(
          "attribution (by operation kinds in the history) is stated in DESIGN.md. Trusted: NetExecutor harness, in-order delivery.",
     design="3/C09")
 
+CHECKS["C07"] = dict(
+    engine="cyclo+symx",
+    technique="SMT (z3 QF_LRA): exact operator semantics in Q(zeta_64) of the instruction list emitted by the real transpiler, 'for all input states' as free real coordinates; z3 LIA for rotation operands",
+    text="For X Y Z H K S T (electron / carbon), CNOT and CPHASE in all 6 ordered placements over ids 0,1,2 (3 qubits, arbitrary electron "
+         "state, so a borrowed electron must be restored) and MOV in both directions (state transfer onto |0>), the real transpiler's "
+         "output is interpreted exactly and z3 decides over all 2^n*32 free coordinates of the input state that it equals the vanilla "
+         "operator up to zeta^k. Rotation operand handling (simulation and hardware mode) is executed on symbolic n, d in 0..255. "
+         "Published float matrices are cross-checked numerically against the exact operators (translator validation, stated as such).",
+    note="Trusted: z3; vf/cyclo.py operator semantics (written from the NetQASM definitions; cross-checked numerically with numpy). "
+         "The float matrices themselves (scipy expm) are outside the solver's reach: clause (c) is numeric.",
+    design="3/C07")
+
 NOT_YET = "check not built yet in this revision (work in progress; see DESIGN.md section 3 for the planned solver-based check)"
 NOT_APPLICABLE = {}
 
